@@ -30,6 +30,9 @@ pub struct Choice {
     pub n: usize,
     /// index into the canonical order (running thread first, then ascending ids)
     pub chosen: usize,
+    /// was the running thread itself still enabled? (then choosing another
+    /// thread is a preemption; otherwise the switch is forced and free)
+    pub cur_enabled: bool,
 }
 
 struct Inner {
@@ -157,7 +160,8 @@ impl Sched {
             0
         };
         if en.len() > 1 {
-            g.choices.push(Choice { n: en.len(), chosen });
+            let cur_enabled = en[0] == g.current && !matches!(g.status[g.current], Status::Finished);
+            g.choices.push(Choice { n: en.len(), chosen, cur_enabled });
         }
         let next = en[chosen];
         g.current = next;
